@@ -713,7 +713,26 @@ def tag(case, f):
     return None
 
 
+def _hier_cases():
+    """Grow-only hierarchies: the histories C02 generates (appends of new and held outer labels, extends, refused growth, reads that may
+    or may not come between two growth calls, derivations taken straight after growth), restricted to IndexHierarchyGO."""
+    from vf.props.c02 import go_cases
+    return go_cases().filter(lambda c: c['kind'] == 'ih')
+
+
+def check_hier_history(case):
+    from vf.props import c02
+    try:
+        return c02.check_go(case)
+    except Failure as f:
+        if c02.tag(case, f) is not None:
+            raise Discard('a finding recorded under C02')
+        raise
+
+
 SUBS = [
+    Sub('hier_history', _hier_cases(), check_hier_history, quick=2400, thorough=16000,
+        rule='IndexHierarchyGO append / extend histories (new and held outer labels, refused growth, growth calls with and without a read in between) vs the list model'),
     Sub('frame_history', frame_cases(14), check_frames, quick=4800, thorough=64000, tag=tag, thorough_strategy=frame_cases(30),
         rule='FrameGO growth/derivation/read histories; snapshot invariants after every step'),
     Sub('index_history', index_cases(), check_index_history, quick=6000, thorough=48000,
